@@ -4,6 +4,7 @@ package main
 
 import (
 	"fmt"
+	"go/constant"
 	"go/token"
 	"go/types"
 	"strings"
@@ -112,6 +113,20 @@ func selfCond(pred, succ *ssa.BasicBlock) []Cond {
 // leavesOf expands v (used in block blk) through phis into (value, conditions) leaves;
 // wrappers are looked through so that phi(wrapper(x), y) is expanded too.
 func (a *FA) leavesOf(v ssa.Value, blk *ssa.BasicBlock, depth int) []condLeaf {
+	if depth == 0 {
+		// conditions on boolean flags are threaded to the edges that set them
+		var out []condLeaf
+		for _, l := range a.leavesOf1(v, blk, 0) {
+			for _, cs := range a.expandBoolPhis([][]Cond{l.Conds}) {
+				out = append(out, condLeaf{V: l.V, Conds: cs, At: l.At})
+			}
+		}
+		return out
+	}
+	return a.leavesOf1(v, blk, depth)
+}
+
+func (a *FA) leavesOf1(v ssa.Value, blk *ssa.BasicBlock, depth int) []condLeaf {
 	base := unwrapErr(v)
 	p, ok := base.(*ssa.Phi)
 	if ok && depth > 0 {
@@ -132,7 +147,7 @@ func (a *FA) leavesOf(v ssa.Value, blk *ssa.BasicBlock, depth int) []condLeaf {
 	var out []condLeaf
 	for i, e := range p.Edges {
 		pred := p.Block().Preds[i]
-		sub := a.leavesOf(e, pred, depth+1)
+		sub := a.leavesOf1(e, pred, depth+1)
 		sc := selfCond(pred, p.Block())
 		for _, l := range sub {
 			l.Conds = append(append([]Cond{}, l.Conds...), sc...)
@@ -146,15 +161,16 @@ func (a *FA) leavesOf(v ssa.Value, blk *ssa.BasicBlock, depth int) []condLeaf {
 
 // nilness of error e under conds: +1 non-nil, -1 nil, 0 unknown.
 func nilnessUnder(conds []Cond, e ssa.Value) int {
+	al := errAliases(e)
 	for _, c := range conds {
 		bo, ok := c.V.(*ssa.BinOp)
 		if !ok || (bo.Op != token.EQL && bo.Op != token.NEQ) {
 			continue
 		}
 		var other ssa.Value
-		if bo.X == e {
+		if al[bo.X] {
 			other = bo.Y
-		} else if bo.Y == e {
+		} else if al[bo.Y] {
 			other = bo.X
 		} else {
 			continue
@@ -170,6 +186,48 @@ func nilnessUnder(conds []Cond, e ssa.Value) int {
 		return -1
 	}
 	return 0
+}
+
+// errAliases: e itself and every merge phi all of whose edges are e, another alias, or a package-level error variable
+// (non-nil by convention): such a phi is nil exactly when e is nil and it took the e edge, so a nil test on it is a
+// nil test on e, and on its non-nil edge it stands for e or for the error e was translated into (io.EOF ->
+// io.ErrUnexpectedEOF). This is what a helper that returns the translated error looks like after inlining.
+func errAliases(e ssa.Value) map[ssa.Value]bool {
+	al := map[ssa.Value]bool{e: true}
+	if e == nil {
+		return al
+	}
+	for changed := true; changed; {
+		changed = false
+		var cand []*ssa.Phi
+		for v := range al {
+			if v.Referrers() == nil {
+				continue
+			}
+			for _, ref := range *v.Referrers() {
+				if p, ok := ref.(*ssa.Phi); ok && !al[p] {
+					cand = append(cand, p)
+				}
+			}
+		}
+		for _, p := range cand {
+			ok := true
+			for _, ed := range p.Edges {
+				if al[ed] {
+					continue
+				}
+				if _, isG := isGlobalErrVarLoad(ed); isG {
+					continue
+				}
+				ok = false
+			}
+			if ok && !al[p] {
+				al[p] = true
+				changed = true
+			}
+		}
+	}
+	return al
 }
 
 func isGlobalErrVarLoad(v ssa.Value) (string, bool) {
@@ -264,7 +322,7 @@ func ReportErrProp(w *World, r *Report, exceptions []errException, fnNames ...st
 					case -1:
 						facts = append(facts, fmt.Sprintf("return at %s: error known nil there", w.InstrPos(ret)))
 					case 1:
-						if src == es.Err {
+						if errAliases(es.Err)[src] {
 							facts = append(facts, fmt.Sprintf("return at %s: returns it (non-nil edge)", w.InstrPos(ret)))
 						} else if g, ok := isGlobalErrVarLoad(src); ok {
 							facts = append(facts, fmt.Sprintf("return at %s: returns %s on the non-nil edge", w.InstrPos(ret), g))
@@ -272,7 +330,7 @@ func ReportErrProp(w *World, r *Report, exceptions []errException, fnNames ...st
 							bad = fmt.Sprintf("on the edge where the error of %s is non-nil the function returns %s at %s instead of that error", es.Name, fmtVal(w, leaf.V), w.InstrPos(ret))
 						}
 					default:
-						if src == es.Err {
+						if errAliases(es.Err)[src] {
 							facts = append(facts, fmt.Sprintf("return at %s: returned unconditionally", w.InstrPos(ret)))
 						} else {
 							bad = fmt.Sprintf("a return at %s is reachable without the error of %s having been tested, and returns %s", w.InstrPos(ret), es.Name, fmtVal(w, leaf.V))
@@ -479,6 +537,92 @@ func taintedSinks(fn *ssa.Function, isSource func(ssa.Value) bool) (map[ssa.Valu
 // CondsDNF: the conditions holding on entry to blk as a disjunction over its
 // incoming paths (merge blocks of `a || b` style tests have no single dominating edge).
 func (a *FA) CondsDNF(blk *ssa.BasicBlock, depth int) [][]Cond {
+	if depth == 0 {
+		raw := a.condsDNF(blk, 0)
+		if ex := a.expandBoolPhis(raw); len(ex) > 0 {
+			return ex
+		}
+		return raw
+	}
+	return a.condsDNF(blk, depth)
+}
+
+// expandBoolPhis threads conditions on boolean flags: a condition "P is true" where P is a merge of boolean
+// constants (flag := false; if c { flag = true }) holds exactly on the paths that came in through an edge
+// carrying that constant, so it is replaced by the conditions of those edges (one alternative per edge).
+func (a *FA) expandBoolPhis(dnf [][]Cond) [][]Cond {
+	for round := 0; round < 4; round++ {
+		changed := false
+		var next [][]Cond
+		for _, cs := range dnf {
+			idx := -1
+			for i, c := range cs {
+				if p, ok := c.V.(*ssa.Phi); ok && !isLoopHeaderPhi(p) {
+					if b, ok := p.Type().Underlying().(*types.Basic); ok && b.Info()&types.IsBoolean != 0 {
+						idx = i
+						break
+					}
+				}
+			}
+			if idx < 0 {
+				next = append(next, cs)
+				continue
+			}
+			c := cs[idx]
+			p := c.V.(*ssa.Phi)
+			rest := append(append([]Cond{}, cs[:idx]...), cs[idx+1:]...)
+			for i, e := range p.Edges {
+				pred := p.Block().Preds[i]
+				var extra []Cond
+				if k, ok := e.(*ssa.Const); ok && k.Value != nil && k.Value.Kind() == constant.Bool {
+					if constant.BoolVal(k.Value) != c.Pol {
+						continue // this edge cannot have been taken
+					}
+				} else {
+					v, pol := e, c.Pol
+					for {
+						u, ok := v.(*ssa.UnOp)
+						if !ok || u.Op != token.NOT {
+							break
+						}
+						v, pol = u.X, !pol
+					}
+					extra = append(extra, Cond{V: v, Pol: pol, If: c.If})
+				}
+				alt := append(append(append([]Cond{}, rest...), a.Conds(pred)...), selfCond(pred, p.Block())...)
+				alt = append(alt, extra...)
+				next = append(next, alt)
+			}
+			changed = true
+		}
+		if len(next) > 48 {
+			return dnf
+		}
+		dnf = next
+		if !changed {
+			break
+		}
+	}
+	// alternatives that assume a condition both true and false describe no path
+	var feasible [][]Cond
+	for _, cs := range dnf {
+		pol := map[ssa.Value]bool{}
+		ok := true
+		for _, c := range cs {
+			if p, seen := pol[c.V]; seen && p != c.Pol {
+				ok = false
+				break
+			}
+			pol[c.V] = c.Pol
+		}
+		if ok {
+			feasible = append(feasible, cs)
+		}
+	}
+	return feasible
+}
+
+func (a *FA) condsDNF(blk *ssa.BasicBlock, depth int) [][]Cond {
 	isHeader := false
 	for _, p := range blk.Preds {
 		if blk.Dominates(p) {
@@ -490,7 +634,7 @@ func (a *FA) CondsDNF(blk *ssa.BasicBlock, depth int) [][]Cond {
 	}
 	var out [][]Cond
 	for _, p := range blk.Preds {
-		for _, cs := range a.CondsDNF(p, depth+1) {
+		for _, cs := range a.condsDNF(p, depth+1) {
 			set := append(append([]Cond{}, cs...), selfCond(p, blk)...)
 			out = append(out, set)
 			if len(out) > 32 {
